@@ -32,6 +32,7 @@ type c05Ctx struct {
 	bodies                    []*core.Body
 	gd                        *core.Guard
 	info                      *types.Info
+	exit                      *c05Exit
 }
 
 func runC05(c *Ctx) {
@@ -330,19 +331,321 @@ func (x *c05Ctx) closeBusyNodes(b *core.Body) []int {
 	})
 }
 
+// ---- the exit region of start -----------------------------------------------
+//
+// "What start runs when it returns" is a semantic notion: the function literal
+// deferred in start, or a method deferred in start on start's own receiver
+// (`defer o.finishRun()`), plus the same-package methods those call on the same
+// receiver (two levels), provided every reference to such a method lies inside
+// the region itself (a method that is also called from elsewhere can run while
+// a worker is alive and is therefore not part of the exit protocol).
+
+type c05Exit struct {
+	depth     map[*core.Body]int             // 0 = deferred in start
+	deferNode map[*core.Body]int             // roots: the DeferStmt node in start's graph
+	callers   map[*core.Body][]core.CallSite // helpers: their call sites (all inside the region)
+	startBody *core.Body
+}
+
+func (x *c05Ctx) recvName(b *core.Body) string {
+	d := b.Owner.Decl
+	if d.Recv == nil || len(d.Recv.List) == 0 || len(d.Recv.List[0].Names) == 0 {
+		return ""
+	}
+	return d.Recv.List[0].Names[0].Name
+}
+
+func (x *c05Ctx) exitRegion() *c05Exit {
+	if x.exit != nil {
+		return x.exit
+	}
+	ex := &c05Exit{depth: map[*core.Body]int{}, deferNode: map[*core.Body]int{}, callers: map[*core.Body][]core.CallSite{}}
+	x.exit = ex
+	sb := x.bodyOf(x.start)
+	ex.startBody = sb
+	if sb == nil || sb.G == nil {
+		return ex
+	}
+	recv := x.recvName(sb)
+	declBody := func(fn *types.Func) *core.Body {
+		fi := x.c.P.DeclOf(fn)
+		if fi == nil || fi == x.start || fi.Pkg != x.start.Pkg {
+			return nil
+		}
+		return x.bodyOf(fi)
+	}
+	// roots
+	live := sb.G.Live()
+	for _, n := range sb.G.Nodes {
+		ds, ok := n.Ast.(*ast.DeferStmt)
+		if !ok || !live[n.ID] {
+			continue
+		}
+		if fl, ok := ast.Unparen(ds.Call.Fun).(*ast.FuncLit); ok {
+			for _, b := range x.bodies {
+				if b.Lit == fl {
+					ex.depth[b] = 0
+					ex.deferNode[b] = n.ID
+				}
+			}
+			continue
+		}
+		fn := core.Callee(x.info, ds.Call)
+		sel, isSel := ast.Unparen(ds.Call.Fun).(*ast.SelectorExpr)
+		if fn == nil || !isSel || recv == "" || core.CanonExpr(sel.X) != recv {
+			continue
+		}
+		if b := declBody(fn); b != nil {
+			ex.depth[b] = 0
+			ex.deferNode[b] = n.ID
+		}
+	}
+	// helpers, two levels: same-package methods called (plain call) on the same receiver
+	for lvl := 0; lvl < 2; lvl++ {
+		for b, d := range ex.depth {
+			if d != lvl || b.G == nil {
+				continue
+			}
+			rn := x.recvName(b) // for the literal: start's receiver, captured
+			bl := b.G.Live()
+			for _, n := range b.G.Nodes {
+				if n.Ast == nil || !bl[n.ID] {
+					continue
+				}
+				switch n.Ast.(type) {
+				case *ast.GoStmt, *ast.DeferStmt:
+					continue
+				}
+				for _, call := range core.CallsIn(n.Ast) {
+					fn := core.Callee(x.info, call)
+					sel, isSel := ast.Unparen(call.Fun).(*ast.SelectorExpr)
+					if fn == nil || !isSel || rn == "" || core.CanonExpr(sel.X) != rn {
+						continue
+					}
+					hb := declBody(fn)
+					if hb == nil {
+						continue
+					}
+					if _, seen := ex.depth[hb]; !seen {
+						ex.depth[hb] = lvl + 1
+					}
+				}
+			}
+		}
+	}
+	// every reference to a declared member of the region must come from the region (or be the defer in start)
+	for changed := true; changed; {
+		changed = false
+		for b := range ex.depth {
+			if b.Lit != nil {
+				continue
+			}
+			var in []core.CallSite
+			okAll := true
+			for _, s := range core.CallSitesOf(x.bodies, b.Owner.Obj) {
+				switch {
+				case s.Body == sb && s.Kind == "defer" && ex.depth[b] == 0 && ex.deferNode[b] == s.Node:
+				case s.Kind == "call" && s.Body != b:
+					if _, inside := ex.depth[s.Body]; inside {
+						in = append(in, s)
+					} else {
+						okAll = false
+					}
+				default:
+					okAll = false
+				}
+			}
+			if !okAll {
+				delete(ex.depth, b)
+				delete(ex.deferNode, b)
+				changed = true
+				continue
+			}
+			ex.callers[b] = in
+		}
+	}
+	// a helper whose callers all dropped out is no longer reachable from a root
+	for changed := true; changed; {
+		changed = false
+		for b, d := range ex.depth {
+			if d == 0 {
+				continue
+			}
+			n := 0
+			for _, s := range ex.callers[b] {
+				if _, inside := ex.depth[s.Body]; inside {
+					n++
+				}
+			}
+			if n == 0 {
+				delete(ex.depth, b)
+				changed = true
+			}
+		}
+	}
+	return ex
+}
+
 func (x *c05Ctx) isExitBlock(b *core.Body) bool {
-	return b.Lit != nil && b.Owner == x.start && b.Role == "defer" && b.Parent != nil && b.Parent.Lit == nil
+	_, ok := x.exitRegion().depth[b]
+	return ok
+}
+
+// c05Pos is a node of an exit-region body, with the expression denoting the operations object there.
+type c05Pos struct {
+	b    *core.Body
+	n    int
+	base ast.Expr
+}
+
+// liftTo maps a position in an exit-region body to the positions that stand for it in the nearest
+// enclosing bodies satisfying stop (the body itself if it does): a helper is replaced by its call sites.
+func (x *c05Ctx) liftTo(p c05Pos, stop func(*core.Body) bool, depth int) []c05Pos {
+	ex := x.exitRegion()
+	if stop(p.b) || ex.depth[p.b] == 0 || depth <= 0 {
+		return []c05Pos{p}
+	}
+	var out []c05Pos
+	for _, s := range ex.callers[p.b] {
+		if _, inside := ex.depth[s.Body]; !inside {
+			continue
+		}
+		sel, _ := ast.Unparen(s.Call.Fun).(*ast.SelectorExpr)
+		if sel == nil {
+			continue
+		}
+		out = append(out, x.liftTo(c05Pos{s.Body, s.Node, sel.X}, stop, depth-1)...)
+	}
+	if len(out) == 0 {
+		return []c05Pos{p}
+	}
+	return out
+}
+
+// afterClose: position p runs after close(busyCh) on every path and in the same critical section.
+func (x *c05Ctx) afterClose(p c05Pos) (bool, string) {
+	hasClose := func(b *core.Body) bool { return len(x.closeBusyNodes(b)) > 0 }
+	for _, q := range x.liftTo(p, hasClose, 3) {
+		cl := x.closeBusyNodes(q.b)
+		if len(cl) != 1 || !q.b.G.Dominated(q.n, core.NodeSet(cl)) {
+			return false, "not preceded by close(busyCh) on every path (in " + q.b.Label + ")"
+		}
+		li, inst, held, why := x.instFor(q.b, q.n, q.base)
+		if !held {
+			return false, "lock not held in " + q.b.Label + ": " + why
+		}
+		if ok, w := li.SameRegion(cl[0], q.n, inst); !ok {
+			return false, "close(busyCh) and this step are not in one critical section: " + w
+		}
+	}
+	// a helper must keep the caller's lock from its entry to the step (instFor's entry lock covers exactly that)
+	if p.b.Lit == nil && !hasClose(p.b) {
+		if _, _, held, why := x.instFor(p.b, p.n, p.base); !held {
+			return false, "lock not held: " + why
+		}
+	}
+	return true, ""
+}
+
+// stepNodes returns, for every exit-region body, the nodes that perform (or call a helper that may perform) a step.
+func (x *c05Ctx) stepNodes(own func(b *core.Body) []int) map[*core.Body]map[int]bool {
+	ex := x.exitRegion()
+	out := map[*core.Body]map[int]bool{}
+	add := func(b *core.Body, n int) bool {
+		if out[b] == nil {
+			out[b] = map[int]bool{}
+		}
+		if out[b][n] {
+			return false
+		}
+		out[b][n] = true
+		return true
+	}
+	for b := range ex.depth {
+		if b.G == nil {
+			continue
+		}
+		for _, n := range own(b) {
+			add(b, n)
+		}
+	}
+	for changed := true; changed; {
+		changed = false
+		for b := range ex.depth {
+			if len(out[b]) == 0 {
+				continue
+			}
+			for _, s := range ex.callers[b] {
+				if _, inside := ex.depth[s.Body]; inside && add(s.Body, s.Node) {
+					changed = true
+				}
+			}
+		}
+	}
+	return out
+}
+
+// alwaysStores: every path through body b (an exit-region helper) assigns busyCh (nil or fresh).
+func (x *c05Ctx) alwaysStores(b *core.Body, depth int) bool {
+	if b.G == nil || depth <= 0 {
+		return false
+	}
+	st := x.storeLike(b, depth)
+	return len(st) > 0 && !b.G.ReachFromEntry(func(n int) bool { return st[n] }, nil)[b.G.Exit]
+}
+
+// storeLike: nodes of b that assign busyCh, or call an exit-region helper that always does.
+func (x *c05Ctx) storeLike(b *core.Body, depth int) map[int]bool {
+	ex := x.exitRegion()
+	makes, nils, _ := x.busyStores(b)
+	st := core.NodeSet(append(append([]int{}, makes...), nils...))
+	for hb := range ex.depth {
+		if hb == b || hb.Lit != nil {
+			continue
+		}
+		for _, s := range ex.callers[hb] {
+			if s.Body == b && x.alwaysStores(hb, depth-1) {
+				st[s.Node] = true
+			}
+		}
+	}
+	return st
+}
+
+// heldW reports whether the queue lock of the operations object is write-held at node n of b
+// (locally acquired, or held by every caller of the helper).
+func (x *c05Ctx) heldW(b *core.Body, n int) bool {
+	li := x.gd.LocksOf(b)
+	for inst, c := range li.ClassOf {
+		if c == "operations.mu" && li.HeldInst(n, inst) == "W" {
+			return true
+		}
+	}
+	if b.Lit == nil {
+		if rn := x.recvName(b); rn != "" {
+			_, _, held, _ := x.instFor(b, n, b.Owner.Decl.Recv.List[0].Names[0])
+			return held
+		}
+	}
+	return false
 }
 
 // ---- R2 ------------------------------------------------------------------
 
 func (x *c05Ctx) r2() {
 	r, P := x.c.R, x.c.P
+	ex := x.exitRegion()
+	const exitWhat = "the code start runs when it returns (the deferred literal / deferred method on start's receiver and the methods it calls)"
 	sites := core.CallSitesOf(x.bodies, x.start.Obj)
 	if len(sites) == 0 {
 		r.Fail("C05.R2", "spawn|none", P.Pos(x.start.Decl.Pos()), "no site starts the worker")
 	}
 	spawnIn := map[*core.Body][]int{}
+	for _, s := range sites {
+		if s.Kind == "go" {
+			spawnIn[s.Body] = append(spawnIn[s.Body], s.Node)
+		}
+	}
 	for _, s := range sites {
 		key := "spawn|in:" + s.Body.Label
 		pos := P.Pos(s.Body.G.PosOf(s.Node))
@@ -350,7 +653,6 @@ func (x *c05Ctx) r2() {
 			r.Fail("C05.R2", "spawn|"+s.Kind+"|in:"+s.Body.Label, pos, "operations.start is referenced as '"+s.Kind+"', not as a 'go' statement: it would run on the caller's goroutine / escape the single-worker protocol")
 			continue
 		}
-		spawnIn[s.Body] = append(spawnIn[s.Body], s.Node)
 		sel, ok := ast.Unparen(s.Call.Fun).(*ast.SelectorExpr)
 		if !ok {
 			r.Undecided("C05.R2", key, pos, "spawn has no receiver expression")
@@ -389,29 +691,27 @@ func (x *c05Ctx) r2() {
 			if ok, w := x.domLift(s.Body, s.Node, sel.X, func(f core.Fact) bool { return x.boolFieldFact(f, x.isClosed, false) }, 2); !ok {
 				bad = append(bad, "restart not dominated by !isClosed (a worker re-spawned after GracefulClose is one nobody waits for): "+w)
 			}
-			cl := x.closeBusyNodes(s.Body)
-			if len(cl) != 1 || !g.Dominated(s.Node, core.NodeSet(cl)) {
-				bad = append(bad, "restart is not preceded by close(busyCh) on every path")
-			} else if ok, w := li.SameRegion(cl[0], s.Node, inst); !ok {
-				bad = append(bad, "close(busyCh) and the restart are not in one critical section: "+w)
+			if ok, w := x.afterClose(c05Pos{s.Body, s.Node, sel.X}); !ok {
+				bad = append(bad, "restart: "+w)
 			}
-			// the exit block is deferred before anything else in start
-			pg := s.Body.Parent.G
-			dn := -1
-			for _, n := range pg.Nodes {
-				if n.Ast != nil && n.Ast == s.Body.Site {
-					dn = n.ID
+			// the exit code is deferred before anything else in start
+			pg := ex.startBody.G
+			pl := pg.Live()
+			for _, root := range x.liftTo(c05Pos{s.Body, s.Node, sel.X}, func(b *core.Body) bool { return ex.depth[b] == 0 }, 3) {
+				dn, isRoot := ex.deferNode[root.b]
+				if !isRoot {
+					bad = append(bad, "the restart is not reached from a function deferred in start")
+					continue
 				}
-			}
-			if dn < 0 {
-				bad = append(bad, "deferred exit block not found in start's CFG")
-			} else {
 				for _, n := range pg.Nodes {
-					if n.ID == dn || n.Ast == nil || !pg.Live()[n.ID] {
+					if n.ID == dn || n.Ast == nil || !pl[n.ID] {
+						continue
+					}
+					if _, isDefer := n.Ast.(*ast.DeferStmt); isDefer {
 						continue
 					}
 					if len(core.CallsIn(n.Ast)) > 0 && !pg.Dominated(n.ID, core.NodeSet([]int{dn})) {
-						bad = append(bad, "start performs a call before the exit block is deferred ("+P.Pos(pg.PosOf(n.ID))+")")
+						bad = append(bad, "start performs a call before the exit code is deferred ("+P.Pos(pg.PosOf(n.ID))+")")
 						break
 					}
 				}
@@ -426,8 +726,12 @@ func (x *c05Ctx) r2() {
 		}
 	}
 
+	// restart-ish and clear-ish nodes per exit-region body (a call to a helper that restarts / clears counts)
+	spawnish := x.stepNodes(func(b *core.Body) []int { return spawnIn[b] })
+	clearish := x.stepNodes(func(b *core.Body) []int { _, nils, _ := x.busyStores(b); return nils })
+
 	// who may write / close busyCh
-	nExit := 0
+	var closers []*core.Body
 	for _, b := range x.bodies {
 		if b.G == nil {
 			continue
@@ -465,68 +769,98 @@ func (x *c05Ctx) r2() {
 		if len(nils) > 0 {
 			var bad []string
 			if !x.isExitBlock(b) {
-				bad = append(bad, "busyCh is cleared outside start's deferred exit block: a second worker can be spawned while one is running")
+				bad = append(bad, "busyCh is cleared outside "+exitWhat+": a second worker can be spawned while one is running")
 			} else {
+				recvExpr := ast.Expr(nil)
 				for _, n := range nils {
-					held := false
-					for inst, c := range li.ClassOf {
-						if c == "operations.mu" && li.HeldInst(n, inst) == "W" {
-							held = true
-							if len(cl) == 1 {
-								if ok, w := li.SameRegion(cl[0], n, inst); !ok {
-									bad = append(bad, "busyCh cleared in a different critical section than close(busyCh): "+w)
-								}
-							}
-						}
-					}
-					if !held {
+					if !x.heldW(b, n) {
 						bad = append(bad, "busyCh cleared without the lock")
 					}
-					if len(cl) != 1 || !g.Dominated(n, core.NodeSet(cl)) {
-						bad = append(bad, "busyCh cleared on a path that did not close it (GracefulClose would wait forever)")
-					}
-					for _, sp := range spawnIn[b] {
-						if g.Reach([]int{n}, nil, nil)[sp] || g.Reach([]int{sp}, nil, nil)[n] {
-							bad = append(bad, "a path both clears busyCh and restarts the worker")
+					// the object expression of the store
+					for _, a := range g.FieldAccesses(map[*types.Var]bool{x.busyCh: true}) {
+						if a.Node == n && a.Write {
+							recvExpr = a.Base
 						}
+					}
+					if ok, w := x.afterClose(c05Pos{b, n, recvExpr}); !ok {
+						bad = append(bad, "busyCh cleared on a path that did not close it in the same critical section (GracefulClose would wait forever): "+w)
 					}
 				}
 			}
-			r.Check(len(bad) == 0, "C05.R2", "busyCh-store|nil|in:"+b.Label, P.Pos(g.PosOf(nils[0])), "cleared only by the exiting worker, after close, under the lock, never together with a restart", strings.Join(bad, "; "))
+			r.Check(len(bad) == 0, "C05.R2", "busyCh-store|nil|in:"+b.Label, P.Pos(g.PosOf(nils[0])), "cleared only by the exiting worker, after close, under the lock", strings.Join(bad, "; "))
 		}
 		if len(cl) > 0 {
 			var bad []string
 			if !x.isExitBlock(b) {
-				bad = append(bad, "busyCh is closed outside start's deferred exit block")
+				bad = append(bad, "busyCh is closed outside "+exitWhat)
 			} else {
-				nExit++
+				closers = append(closers, b)
 				if len(cl) != 1 {
-					bad = append(bad, sprintf("%d close(busyCh) sites in the exit block (double close panics)", len(cl)))
+					bad = append(bad, sprintf("%d close(busyCh) sites in the exit code (double close panics)", len(cl)))
 				} else {
 					if !g.Dominated(g.Exit, core.NodeSet(cl)) {
-						bad = append(bad, "a path leaves the exit block without closing busyCh (GracefulClose would wait forever)")
+						bad = append(bad, "a path leaves the exit code without closing busyCh (GracefulClose would wait forever)")
 					}
-					held := false
-					for inst, c := range li.ClassOf {
-						if c == "operations.mu" && li.HeldInst(cl[0], inst) == "W" {
-							held = true
-						}
-					}
-					if !held {
+					if !x.heldW(b, cl[0]) {
 						bad = append(bad, "close(busyCh) without the lock")
 					}
 					// after the close every path replaces busyCh (nil or fresh) before leaving
-					stores := core.NodeSet(append(append([]int{}, makes...), nils...))
+					stores := x.storeLike(b, 3)
 					if g.Reach([]int{cl[0]}, func(n int) bool { return stores[n] }, nil)[g.Exit] {
 						bad = append(bad, "a path leaves busyCh pointing at the closed channel (the next enqueue would not start a worker)")
+					}
+					// a closing helper is called exactly once on every path of each caller, up to the deferred root
+					for cur, seen := []*core.Body{b}, map[*core.Body]bool{b: true}; len(cur) > 0; {
+						var next []*core.Body
+						for _, hb := range cur {
+							if ex.depth[hb] == 0 {
+								continue
+							}
+							per := map[*core.Body][]int{}
+							for _, s := range ex.callers[hb] {
+								per[s.Body] = append(per[s.Body], s.Node)
+							}
+							for cb, nodes := range per {
+								if len(nodes) != 1 || !cb.G.Dominated(cb.G.Exit, core.NodeSet(nodes)) {
+									bad = append(bad, "the closing helper "+hb.Label+" is not called exactly once on every path of "+cb.Label)
+								}
+								if !seen[cb] {
+									seen[cb] = true
+									next = append(next, cb)
+								}
+							}
+						}
+						cur = next
 					}
 				}
 			}
 			r.Check(len(bad) == 0, "C05.R2", "busyCh-close|in:"+b.Label, P.Pos(g.PosOf(cl[0])), "closed exactly once per worker, under the lock, and always replaced afterwards", strings.Join(bad, "; "))
 		}
 	}
-	if nExit == 0 {
-		r.Fail("C05.R2", "busyCh-close|missing", P.Pos(x.start.Decl.Pos()), "start's deferred exit block does not close busyCh")
+	// never both: on no path of any exit-region body is busyCh cleared and the worker restarted
+	var both []string
+	for b := range ex.depth {
+		for n := range clearish[b] {
+			for sp := range spawnish[b] {
+				if n == sp {
+					continue // one call into a helper that does either: judged inside the helper
+				}
+				if b.G.Reach([]int{n}, nil, nil)[sp] || b.G.Reach([]int{sp}, nil, nil)[n] {
+					both = append(both, "in "+b.Label+" a path both clears busyCh ("+P.Pos(b.G.PosOf(n))+") and restarts the worker ("+P.Pos(b.G.PosOf(sp))+")")
+				}
+			}
+		}
+	}
+	sort.Strings(both)
+	switch {
+	case len(closers) == 0:
+		r.Fail("C05.R2", "busyCh-close|missing", P.Pos(x.start.Decl.Pos()), exitWhat+" does not close busyCh")
+	case len(closers) > 1:
+		r.Fail("C05.R2", "busyCh-close|several", P.Pos(x.start.Decl.Pos()), sprintf("busyCh is closed in %d different functions of the exit code (double close panics)", len(closers)))
+	}
+	if len(both) > 0 {
+		// reported on the clearing construct, which always exists when this fires
+		r.Fail("C05.R2", "busyCh-store|nil+restart", P.Pos(x.start.Decl.Pos()), strings.Join(both, "; "))
 	}
 }
 
